@@ -37,6 +37,7 @@ type c17Case struct {
 	ReqMarker  string
 	ResMarker  string
 	HandlerOK  bool
+	Enforce    bool // the call handler marks its reply secure itself (secure.EnforceSecure on the reply message)
 }
 
 func genC17(t *rapid.T, protos []vt.NamedProto) c17Case {
@@ -62,6 +63,7 @@ func genC17(t *rapid.T, protos []vt.NamedProto) c17Case {
 		Unknown:    rapid.IntRange(0, 3).Draw(t, "unknown") == 0,
 		RawResult:  rapid.IntRange(0, 3).Draw(t, "rawresult") == 0,
 		RouteLevel: rapid.IntRange(0, 2).Draw(t, "routelevel") == 0,
+		Enforce:    rapid.IntRange(0, 3).Draw(t, "enforce") == 0,
 	}
 }
 
@@ -72,7 +74,10 @@ var c17 struct {
 	gotReq  string
 	resMark string
 	ok      bool
+	enforce bool
 }
+
+func c17Enforce() bool { c17.Lock(); defer c17.Unlock(); return c17.enforce }
 
 func c17Handle(marker string) (string, *erpc.Status) {
 	c17.Lock()
@@ -90,12 +95,18 @@ func C17Json(ctx erpc.CallCtx, a *SecArg) (*SecArg, *erpc.Status) {
 	if st != nil {
 		return nil, st
 	}
+	if c17Enforce() {
+		secure.EnforceSecure(ctx.Output())
+	}
 	return &SecArg{Marker: r, N: -a.N, L: []string{"r"}}, nil
 }
 func C17Pb(ctx erpc.CallCtx, a *secure.Encrypt) (*secure.Encrypt, *erpc.Status) {
 	r, st := c17Handle(a.Ciphertext)
 	if st != nil {
 		return nil, st
+	}
+	if c17Enforce() {
+		secure.EnforceSecure(ctx.Output())
 	}
 	return &secure.Encrypt{Ciphertext: r}, nil
 }
@@ -132,7 +143,7 @@ func containsMarker(stream []byte, marker string) bool {
 func runC17(c c17Case, protos []vt.NamedProto) []string {
 	vt.Init()
 	c17.Lock()
-	c17.calls, c17.pushes, c17.gotReq, c17.resMark, c17.ok = 0, 0, "", c.ResMarker, c.HandlerOK
+	c17.calls, c17.pushes, c17.gotReq, c17.resMark, c17.ok, c17.enforce = 0, 0, "", c.ResMarker, c.HandlerOK, c.Enforce
 	c17.Unlock()
 	keyA := strings.Repeat("k", c.KeyLen)
 	keyB := keyA
@@ -168,6 +179,9 @@ func runC17(c c17Case, protos []vt.NamedProto) []string {
 			if st != nil {
 				return nil, st
 			}
+			if c.Enforce {
+				ctx.SetMeta(secure.SECURE_META_KEY, "true")
+			}
 			return &SecArg{Marker: r, L: []string{"r"}}, nil
 		}
 		a := new(secure.Encrypt)
@@ -177,6 +191,9 @@ func runC17(c c17Case, protos []vt.NamedProto) []string {
 		r, st := c17Handle(a.Ciphertext)
 		if st != nil {
 			return nil, st
+		}
+		if c.Enforce {
+			ctx.SetMeta(secure.SECURE_META_KEY, "true")
 		}
 		return &secure.Encrypt{Ciphertext: r}, nil
 	}, routePlug...)
@@ -232,6 +249,10 @@ func runC17(c c17Case, protos []vt.NamedProto) []string {
 	// the reply is encrypted when the request was encrypted (unless it declined with accept=false) or asked for it
 	replyEncrypted := c.Secure && c.Accept != "false" || !c.Secure && c.Accept == "true"
 	replyUnspecified := c.Secure && c.Accept == "false" // the two readings of the property differ: not asserted
+	if c.Enforce && c.Kind == "call" {
+		// the handler marked the reply secure itself: a message marked secure is encrypted
+		replyEncrypted, replyUnspecified = true, false
+	}
 	route := routes[c.Kind+"-"+c.Codec]
 	if c.Unknown {
 		route = "/not/registered/" + c.Kind
@@ -348,15 +369,15 @@ func runC17(c c17Case, protos []vt.NamedProto) []string {
 	return fails
 }
 
-const ruleC17 = "both peers run the secure plugin (the receiving one peer-wide or attached to its routes; key length 16/24/32, equal or different keys); one call or push per case with body codec json or protobuf, a 24-character random marker (or, one time in five, an empty one: the protobuf body then marshals to zero bytes) in the argument and another in the result, request marked secure or not, served by a typed handler or by the unknown-call / unknown-push handler (which binds the raw body itself), result received typed or as raw bytes, accept-secure marker absent/true/false, handler succeeding or failing; oracle: with decipherable traffic the handler sees the original argument and the caller the original result; with a different key the handler is not invoked (or the result not delivered) and the status carries the plugin's code; wire capture of both directions: a marker that must be encrypted never occurs (raw, hex, base64), a marker of an unmarked message does occur; the reply of (secure request, accept=false) is not asserted either way; non-trivial = at least one frame must be encrypted; distinct by case"
+const ruleC17 = "both peers run the secure plugin (the receiving one peer-wide or attached to its routes; key length 16/24/32, equal or different keys); one call or push per case with body codec json or protobuf, a 24-character random marker (or, one time in five, an empty one: the protobuf body then marshals to zero bytes) in the argument and another in the result, request marked secure or not, served by a typed handler or by the unknown-call / unknown-push handler (which binds the raw body itself), result received typed or as raw bytes, accept-secure marker absent/true/false, handler succeeding or failing, and in a quarter of the cases marking its reply secure itself (secure.EnforceSecure / the X-Secure reply metadata); oracle: with decipherable traffic the handler sees the original argument and the caller the original result; with a different key the handler is not invoked (or the result not delivered) and the status carries the plugin's code; wire capture of both directions: a marker that must be encrypted never occurs (raw, hex, base64), a marker of an unmarked message does occur; the reply of (secure request, accept=false) is not asserted either way; non-trivial = at least one frame must be encrypted; distinct by case"
 
 func TestC17Secure(t *testing.T) {
 	rec := vt.NewRec(t, "C17", "secure", ruleC17)
 	protos := vt.StreamProtos()
 	rapid.Check(t, func(t *rapid.T) {
 		c := genC17(t, protos)
-		nt := c.Secure || c.Accept == "true"
-		rec.Case(fmt.Sprintf("%+v", c), nt, "kind="+c.Kind, "codec="+c.Codec, fmt.Sprintf("secure=%v", c.Secure), "accept="+c.Accept, fmt.Sprintf("samekey=%v", c.SameKey))
+		nt := c.Secure || c.Accept == "true" || c.Enforce && c.Kind == "call"
+		rec.Case(fmt.Sprintf("%+v", c), nt, "kind="+c.Kind, "codec="+c.Codec, fmt.Sprintf("secure=%v", c.Secure), "accept="+c.Accept, fmt.Sprintf("samekey=%v", c.SameKey), fmt.Sprintf("enforce=%v", c.Enforce))
 		if rec.WantSample() && nt {
 			rec.Sample(c)
 		}
